@@ -72,7 +72,7 @@ pub fn gen(rng: &mut Rng, size: usize) -> Value {
         let nfun = if budget_family { 1 } else { 1 + rng.below(size as u64 + 1) };
         for _ in 0..nfun {
             if rng.chance(1, 3) { s.push_str(*rng.pick(&["/*😍*/", "var é=1;", "}", " ", "x=\"㮏\";"])); }
-            let sep = *rng.pick(&[" ", "  ", "\t"]);
+            let sep = *rng.pick(&[" ", "  ", "\t", "\u{a0}", "\u{2028}", "\u{3000}", "\u{b}", " \u{2003}"]);
             let id = *rng.pick(IDS);
             // keyword token
             if rng.chance(9, 10) { toks.push(json!([l, u16len(&s), 0, toks.len(), 0, -1, 0])); }
@@ -80,6 +80,8 @@ pub fn gen(rng: &mut Rng, size: usize) -> Value {
             s.push_str(sep);
             // name token (sometimes pointing at the blank before the name)
             let col = if rng.chance(1, 5) { u16len(&s) - 1 } else { u16len(&s) };
+            // sometimes an extra token at an arbitrary column of the text so far (possibly inside a surrogate pair)
+            if rng.chance(1, 4) && u16len(&s) > 2 { let c = rng.below(u16len(&s) as u64 - 1); toks.push(json!([l, c, 0, toks.len(), 0, -1, 0])); }
             names.push(json!(format!("orig_{}_{}", id, toks.len())));
             toks.push(json!([l, col, 0, toks.len(), 0, names.len() - 1, 0]));
             s.push_str(id);
